@@ -405,7 +405,7 @@ pub fn lib_format_full(src: &str, config: sl::Config, range: (Option<usize>, Opt
 }
 
 /// The probe program: its formatted text differs for every option value
-pub const PROBE: &str = "local  s = 'it\\'s \"q\"'\nlocal t = {  a = 1, bb = function() return 1 end,\n    c = \"str\" }\nrequire 'mod'\nlocal zz = require(\"zz\")\nlocal aa = require(\"aa\")\nif x then return end\nlocal function f( a, b ) return a + b end\ncall_something(argument_number_one, argument_number_two, argument_number_three, 'four')\nf { 1 }\n";
+pub const PROBE: &str = "local  s = 'it\\'s \"q\"'\nlocal t = {  a = 1, bb = function() return 1 end,\n    c = \"str\" }\nrequire 'mod'\nlocal zz = require(\"zz\")\nlocal aa = require(\"aa\")\nif x then return end\nlocal function f( a, b ) return a + b end\ncall_something(argument_number_one, argument_number_two, argument_number_three, 'four')\nf { 1 }\ndo\n  do\n    do\n      nested_call(argument_one, argument_two, aaaaaaaaaaaaaaaaaaaaaaaaaaaaaaaaaaaaaaaaaaaaaaaaaaaaaaaaaaaaaaa)\n      nested_call(argument_one, argument_two, aaaaaaaaaaaaaaaaaaaaaaaaaaaaaaaaaaaaaaaaaaaaaaaaaaaaaaaaaaaaaaaaaaaaa)\n      nested_call(argument_one, argument_two, aaaaaaaaaaaaaaaaaaaaaaaaaaaaaaaaaaaaaaaaaaaaaaaaaaaaaaaaaaaaaaaaaaaaaaaa)\n      nested_call(argument_one, argument_two, aaaaaaaaaaaaaaaaaaaaaaaaaaaaaaaaaaaaaaaaaaaaaaaaaaaaaaaaaaaaaaaaaaaaaaaaaa)\n    end\n  end\nend\n";
 
 /// a small unformatted but valid program, different for every `k`
 pub fn messy_program(k: usize) -> String {
